@@ -37,6 +37,12 @@ func (k msgServer) NonVotingUndelegate(ctx context.Context, msg *types.MsgNonVot
 	if err != nil {
 		return nil, errorsmod.Wrap(err, "invalid validator address")
 	}
+	// Share denoms and store keys are derived from the address string: use the canonical
+	// encoding, bech32 also decodes an all upper-case string to the same validator
+	validator, err := k.stakingKeeper.ValidatorAddressCodec().BytesToString(validatorAddr)
+	if err != nil {
+		return nil, errorsmod.Wrap(err, "invalid validator address")
+	}
 
 	_, err = k.Keeper.ClaimRewards(ctx, sender, validatorAddr)
 	if err != nil {
@@ -44,8 +50,8 @@ func (k msgServer) NonVotingUndelegate(ctx context.Context, msg *types.MsgNonVot
 	}
 
 	// Calculate unbonding share
-	shareDenom := types.NonVotingShareTokenDenom(msg.ValidatorAddress)
-	unbondingShare, err := k.CalculateShareByAmount(ctx, msg.ValidatorAddress, msg.Amount.Amount)
+	shareDenom := types.NonVotingShareTokenDenom(validator)
+	unbondingShare, err := k.CalculateShareByAmount(ctx, validator, msg.Amount.Amount)
 	if err != nil {
 		return nil, err
 	}
@@ -74,7 +80,7 @@ func (k msgServer) NonVotingUndelegate(ctx context.Context, msg *types.MsgNonVot
 
 	res, err := k.Environment.MsgRouterService.Invoke(ctx, &stakingtypes.MsgUndelegate{
 		DelegatorAddress: moduleAddr.String(),
-		ValidatorAddress: msg.ValidatorAddress,
+		ValidatorAddress: validator,
 		Amount:           output,
 	})
 	if err != nil {
